@@ -46,6 +46,15 @@ def oracle_c02(c, a, b):
             if outcome(a) == "ok":
                 return "accepted a name that reads outside the buffer"
         return None
+    if w[0] == "cursor" and " parse=" in a:
+        # the verdict of parse() does not depend on where earlier cursor calls left the sector's cursor
+        verdict = a.split(" parse=")[1]
+        ok, why = refdec.is_wellformed(b"" if w[1] == "-" else bytes.fromhex(w[1]))
+        if ok and not verdict.startswith("ok:"):
+            return "a well-formed packet was turned away by parse() after cursor calls (%s)" % verdict[:60]
+        if not ok and verdict.startswith("ok"):
+            return "parse() after cursor calls accepted a packet that is not well-formed: %s" % why
+        return None
     if w[0] != "parse":
         return None
     if bad_outcome(a):
@@ -125,6 +134,8 @@ def oracle_c03(c, a, b):
         return None
     if a.startswith("noparse"):
         return None  # not an accepted packet: outside the property's quantifier
+    if "RAWNAME-CONTRACT-BROKEN" in a:
+        return "copy_raw_name did not append exactly the name to the caller's vector / return the name's length: %s" % a[a.index("RAWNAME-CONTRACT-BROKEN"):][:60]
     if "panic" in a or outcome(a) in ("hang", "abort"):
         return "an iterator or accessor panicked on an accepted packet"
     try:
@@ -537,9 +548,13 @@ def oracle_c16(c, a, b):
     if len(got) != len(steps):
         return "script produced %d results for %d steps" % (len(got), len(steps))
     for st, g in zip(steps, got):
-        m = re.match(r"(\d+)(f(\d+)|r)$", st)
+        m = re.match(r"(\d+)(f(\d+)|r|s(\d+))$", st)
         t = int(m.group(1))
-        if m.group(2) == "r":
+        if m.group(2).startswith("s"):
+            # a call that succeeds: returns 0 and leaves the thread's description alone (`last` unchanged)
+            if g != "t%ds=0" % t:
+                return "a table call that should succeed returned %s" % g
+        elif m.group(2) == "r":
             want = "t%d=%s" % (t, last.get(t, "none"))
             if g != want:
                 return "thread %d read description %s, its own most recent failure is %s" % (t, g, want)
@@ -761,7 +776,7 @@ PROPS = {
         "module": "DnsModel.Theorems.C16", "theorems": ["Dns.C16.private_slot", "Dns.C16.other_threads_commute", "Dns.C16.read_preserves"],
         "families": [{"name": "errslots-many", "quick": 0, "thorough": 0, "fixed": True}, {"name": "errslots-exhaustive", "quick": 0, "thorough": 0, "fixed": True}, {"name": "errslots", "quick": 300, "thorough": 5000}],
         "oracle": oracle_c16, "nontrivial": lambda c, a: "f" in c, "shrink": False,
-        "rule": "all 20 interleavings of 2 threads x 3 steps x 36 assignments of step kinds (exhaustive), plus sampled 3- and 4-thread schedules; real threads stepped in the scripted global order; on every other failing call the caller's error variable already holds the pointer most recently handed to any thread (the argument is output-only)",
+        "rule": "all 20 interleavings of 2 threads x 3 steps x 64 assignments of step kinds (failing calls, reads, successful calls made with the same error variable; exhaustive), plus sampled 3- and 4-thread schedules; real threads stepped in the scripted global order; on every other failing call the caller's error variable already holds the pointer most recently handed to any thread (the argument is output-only)",
         "level": "proof", "explanation": "", "assumptions": ["thread_local! gives each thread its own cell (what the schedules probe)"],
     },
     "C17": {
